@@ -30,6 +30,8 @@ type SysOpts struct {
 	HostBases    []string
 	MetaLimit    int
 	BoltSync     bool // keep fsync on (C15)
+	FreshMeta    bool // single-bucket systems: a restart comes back with an empty in-memory metadata store (the default
+	// configuration of the directfs backend), so every object is met without a metadata record
 	Skew         bool // keep the default time-skew limit (requests carrying a far-off x-amz-date are refused)
 	// Wrap, when set, interposes on the Backend the front end is built on
 	// (schedule gates at backend-call granularity, C07).
@@ -209,6 +211,9 @@ func (s *System) open(fresh bool) error {
 // Reopen closes the backend and constructs a new one on the same storage.
 // Only meaningful for the persistent systems (bolt, multios, singleos).
 func (s *System) Reopen() error {
+	if s.Opts.FreshMeta && s.Single() {
+		s.metaFs = afero.NewMemMapFs()
+	}
 	if s.boltDB != nil {
 		if err := s.boltDB.Close(); err != nil {
 			return err
